@@ -22,7 +22,9 @@ EXPLANATION = (
     'run_simulation); R-C03.3 AppMutator.to_sql replays from the recorded '
     'originals, which __init__ binds from a copy, not an alias; R-C03.4 the '
     'per-model regrouping iterates sorted(model_names) and no set order '
-    'reaches the result.')
+    'reaches the result; R-C03.6 a mutation taken from the '
+    'last_change_mutations map and marked removed is deleted from / '
+    'overwritten in that map on every path.')
 NOT_DECIDED = (
     'Equivalence of the optimised run and the one-at-a-time run (signature, '
     'schema, rows) for all sequences: needs execution of both.')
@@ -392,7 +394,78 @@ def r4_regroup_deterministic(ctx):
                     'sorted(model_names)', key='regroup-unsorted')
 
 
+def r6_consumed_entries_invalidated(ctx):
+    """A mutation taken from a bookkeeping map and marked as removed must not
+    stay in that map (a later, unrelated mutation with the same key would be
+    merged into a mutation that no longer exists)."""
+    ctx.rule('R-C03.6')
+    p = ctx.program
+    f = p.func(AM, 'AppMutator._process_mutation_batch')
+    g = ctx.cfg(f)
+    from ..flow import ReachingDefs
+    rd = ReachingDefs(g, f.params)
+    n_sites = 0
+    for n in g.nodes:
+        for c in n.calls():
+            if not (call_name(c) == 'add' and
+                    unparse(c.func.value) == 'removed_mutations' and
+                    c.args and isinstance(c.args[0], ast.Name)):
+                continue
+            v = c.args[0].id
+            # where does v come from?  map[key] / map.get(key)
+            srcs = []
+            for d in rd.reaching(n, v):
+                e = d.value
+                if isinstance(e, ast.Subscript) and \
+                        isinstance(e.value, ast.Name):
+                    srcs.append((e.value.id, unparse(e.slice)))
+                elif isinstance(e, ast.Call) and call_name(e) == 'get' and \
+                        isinstance(e.func.value, ast.Name) and e.args:
+                    srcs.append((e.func.value.id, unparse(e.args[0])))
+            for mp, key in srcs:
+                if mp not in ('last_change_mutations',):
+                    continue
+                n_sites += 1
+                # every path from the add to the next loop iteration passes
+                # a delete / overwrite of map[key]
+                inval = []
+                for m in g.nodes:
+                    a = m.ast
+                    if m.kind == 'stmt' and isinstance(a, ast.Delete) and \
+                            any(unparse(t) == '%s[%s]' % (mp, key)
+                                for t in a.targets):
+                        inval.append(m)
+                    if m.kind == 'stmt' and isinstance(a, ast.Assign) and \
+                            any(unparse(t) == '%s[%s]' % (mp, key)
+                                for t in a.targets):
+                        inval.append(m)
+                    if any(call_name(cc) == 'pop' and
+                           unparse(cc.func.value) == mp and cc.args and
+                           unparse(cc.args[0]) == key for cc in m.calls()):
+                        inval.append(m)
+                heads = [h for h in g.nodes if h.kind == 'for' and
+                         n.id in g.reachable(
+                             [s for s, l in h.succ if l == 'T'],
+                             avoid=[h], follow_exc=False)]
+                head = heads[-1] if heads else None
+                w = g.path(n, head, avoid=inval, follow_exc=False) \
+                    if head is not None else None
+                if head is not None and w is None:
+                    ctx.ok(f, 'the entry %s[%s] is deleted/overwritten after '
+                           'its mutation is marked removed' % (mp, key), c)
+                else:
+                    ctx.finding(f, c, 'a mutation read from %s[%s] is marked '
+                                'as removed but stays in the map: a later '
+                                'mutation with the same key is merged into '
+                                'the removed one (optimised result differs '
+                                'from one-at-a-time)' % (mp, key), path=w,
+                                key='stale-entry:%s' % mp)
+    ctx.floor('removed mutations taken from last_change_mutations', n_sites,
+              2)
+
+
 def run(ctx):
+    r6_consumed_entries_invalidated(ctx)
     r1_ownership(ctx)
     r5_mutations_pure(ctx)
     r2_resimulated(ctx)
